@@ -1720,8 +1720,16 @@ func (w *ResponseWriter) WriteMsg(res *dns.Msg) error {
 	if w.clientScope.IsValid() {
 		if respScope, ok := ecs.ReadResponseScope(res); ok {
 			clamped := w.cache.ecsPolicy.ClampScope(respScope, w.clientScope)
-			scopedKey := CacheKey{Question: q, CD: res.CheckingDisabled, Scope: clamped}.Hash()
-			w.cache.store.SetFromResponseScoped(scopedKey, res, clamped, cutUntil, cutKey)
+			// The scope is built from the address the upstream put in its
+			// option, and that address MUST echo the query's (RFC 7871
+			// §7.3). One that does not — another subnet, another family —
+			// describes an audience this answer was not obtained for, so
+			// there is no key it can safely be filed under: the client
+			// still gets its reply, the cache keeps nothing.
+			if clamped.Contains(w.clientScope.Addr()) {
+				scopedKey := CacheKey{Question: q, CD: res.CheckingDisabled, Scope: clamped}.Hash()
+				w.cache.store.SetFromResponseScoped(scopedKey, res, clamped, cutUntil, cutKey)
+			}
 		} else {
 			// No SCOPE in response (or SCOPE=0): authority says
 			// "global"; cache shared so future non-ECS clients hit.
